@@ -208,6 +208,17 @@ impl RawCel<RawPixels> {
                 let layer_is_background = layers[cel_id.layer as u32].is_background();
                 let image_content =
                     image_content.validate(palette, pixel_format, layer_is_background)?;
+                // Compressed data can decode to fewer pixels than the cel
+                // declares; rendering indexes by the declared size.
+                if image_content.pixels.len() < image_content.size.pixel_count() {
+                    return Err(AsepriteParseError::InvalidInput(format!(
+                        "Cel {} declares {}x{} pixels but contains only {}",
+                        cel_id,
+                        image_content.size.width,
+                        image_content.size.height,
+                        image_content.pixels.len()
+                    )));
+                }
                 CelContent::Raw(image_content)
             }
             CelContent::Linked(other_frame) => {
